@@ -12,7 +12,28 @@ package profile
 
 // ---- C20: listing parsers. json.Unmarshal is modelled as "any well-typed value appears in the target" (every byte
 // string is covered by that); the parsers must not panic on any such value and return only named, non-nil models.
-//@ spec func namedModels(ms []*domain.ModelInfo) bool = forall i int :: 0 <= i && i < len(ms) ==> ms[i] != nil && ms[i].Name != ""
+
+//@ interface ModelResponseParser.Parse
+//@   ensures res1 == nil ==> namedModels(res0)
+
+//@ type ConfigurableProfile
+//@   repinv self.config != nil
+
+//@ func NewConfigurableProfile
+//@   property C20
+//@   requires config != nil
+//@   ensures res != nil && res.config == config
+
+//@ func getParserForFormat
+//@   property C20
+//@   ensures res != nil
+
+//@ func (p *ConfigurableProfile) ParseModelsResponse
+//@   property C20
+//@   safety
+//@   requires p != nil
+//@   refines domain.PlatformProfile.ParseModelsResponse
+//@   ensures res1 == nil ==> namedModels(res0)
 
 //@ func createOllamaModelDetails
 //@   property C20
@@ -21,72 +42,72 @@ package profile
 
 //@ func (p *ollamaParser) Parse
 //@   property C20
+//@   refines ModelResponseParser.Parse
 //@   safety
-//@   modifies *
 //@   loop 1 invariant namedModels(models)
 //@   ensures res1 == nil ==> namedModels(res0)
 //@   ensures res1 != nil ==> len(res0) == 0
 
 //@ func (p *lmStudioParser) Parse
 //@   property C20
+//@   refines ModelResponseParser.Parse
 //@   safety
-//@   modifies *
 //@   loop 1 invariant namedModels(models)
 //@   ensures res1 == nil ==> namedModels(res0)
 //@   ensures res1 != nil ==> len(res0) == 0
 
 //@ func (p *openAIParser) Parse
 //@   property C20
+//@   refines ModelResponseParser.Parse
 //@   safety
-//@   modifies *
 //@   loop 1 invariant namedModels(models)
 //@   ensures res1 == nil ==> namedModels(res0)
 //@   ensures res1 != nil ==> len(res0) == 0
 
 //@ func (p *lemonadeParser) Parse
 //@   property C20
+//@   refines ModelResponseParser.Parse
 //@   safety
-//@   modifies *
 //@   loop 1 invariant namedModels(models)
 //@   ensures res1 == nil ==> namedModels(res0)
 //@   ensures res1 != nil ==> len(res0) == 0
 
 //@ func (p *llamaCppParser) Parse
 //@   property C20
+//@   refines ModelResponseParser.Parse
 //@   safety
-//@   modifies *
 //@   loop 1 invariant namedModels(models)
 //@   ensures res1 == nil ==> namedModels(res0)
 //@   ensures res1 != nil ==> len(res0) == 0
 
 //@ func (p *sglangParser) Parse
 //@   property C20
+//@   refines ModelResponseParser.Parse
 //@   safety
-//@   modifies *
 //@   loop 1 invariant namedModels(models)
 //@   ensures res1 == nil ==> namedModels(res0)
 //@   ensures res1 != nil ==> len(res0) == 0
 
 //@ func (p *vllmParser) Parse
 //@   property C20
+//@   refines ModelResponseParser.Parse
 //@   safety
-//@   modifies *
 //@   loop 1 invariant namedModels(models)
 //@   ensures res1 == nil ==> namedModels(res0)
 //@   ensures res1 != nil ==> len(res0) == 0
 
 //@ func (p *vllmMLXParser) Parse
 //@   property C20
+//@   refines ModelResponseParser.Parse
 //@   safety
-//@   modifies *
 //@   loop 1 invariant namedModels(models)
 //@   ensures res1 == nil ==> namedModels(res0)
 //@   ensures res1 != nil ==> len(res0) == 0
 
 //@ func (p *dockerModelRunnerParser) Parse
 //@   property C20
+//@   refines ModelResponseParser.Parse
 //@   safety
-//@   modifies *
 //@   loop 1 invariant namedModels(models)
 //@   ensures res1 == nil ==> namedModels(res0)
 //@   ensures res1 != nil ==> len(res0) == 0
@@ -94,3 +115,9 @@ package profile
 //@ func inferFormatFromRecipe
 //@   property C20
 //@   safety
+
+// profile lookup (configuration side: the loader only ever stores non-nil profiles; not backend data)
+//@ func (f *Factory) GetProfile
+//@   property C20
+//@   trusted
+//@   ensures res1 == nil ==> res0 != nil
